@@ -497,6 +497,9 @@ class ListArr(object):
     def copy(self):
         return ListArr(list(self.items), self.dtype_)
 
+    def tolist(self):
+        return list(self.items)
+
     def inplace(self, new_items):
         st = sym.get_state()
         if self.alias == "input" and st is not None:
@@ -994,8 +997,33 @@ def _unary_real(interp, name, x, real_fn):
     return SymReal(f(z3real(x)))
 
 
+def m_frombuffer(interp, buf, dtype=float, count=-1, offset=0):
+    """np.frombuffer on symbolic file bytes of a concrete, small length: element i is the integer the dtype's byte
+    order makes of bytes [i*w, (i+1)*w)"""
+    if isinstance(buf, (bytes, bytearray, memoryview)):
+        return np.frombuffer(buf, dtype=dtype, count=count, offset=offset)
+    if not isinstance(buf, M.SBytes) or count != -1 or offset != 0:
+        raise Unsupported("np.frombuffer(%s)" % type(buf).__name__)
+    dt = np.dtype(dtype)
+    if dt.kind not in "iu" or not isinstance(buf.length, int) or buf.length > 256:
+        raise Unsupported("np.frombuffer of dtype %s / symbolic length" % dt)
+    M.trusted("numpy.frombuffer(b, dtype): consecutive items of the dtype's width, decoded in the dtype's byte order "
+              "(native = little-endian on this platform)")
+    w = dt.itemsize
+    if buf.length % w:
+        from .interp import ProgExc
+        raise ProgExc(ValueError, "buffer size must be a multiple of element size")
+    big = dt.byteorder == ">"
+    items = []
+    for i in range(buf.length // w):
+        f = M.int_at if dt.kind == "i" else M.uint_at
+        items.append(sym._lift(f(buf.content, buf.off + i * w, w, big)))
+    return ListArr(items, dt)
+
+
 def install(interp, m):
     table = {
+        "frombuffer": lambda *a, **k: m_frombuffer(interp, *a, **k),
         "zeros": lambda *a, **k: m_zeros(interp, *a, **k),
         "empty": lambda *a, **k: m_empty(interp, *a, **k),
         "cumsum": lambda *a, **k: m_cumsum(interp, *a, **k),
